@@ -1,0 +1,11 @@
+//go:build !verif
+
+package xmss
+
+// No-op counterparts of the verification hooks (see verif_on.go).
+
+func verifLeaf(hf HashFunction, leaf []uint8, otsAddr *[8]uint32) bool { return false }
+
+func verifHash(hf HashFunction, typeValue uint32, buf, out []uint8) {}
+
+func verifRound(site int, leafIdx uint32) {}
